@@ -46,6 +46,25 @@ SetAt(S, pos, k, new) ==
 \* S with every reference replaced by what it designates.  [ok, v]; ok = FALSE when a reference does not resolve
 \* or the fuel runs out (cyclic references have no finite inlining).
 RECURSIVE Inline(_, _, _, _)
+\* Truncated inlining for RECURSIVE references (no finite inlining exists): unfold references to depth f and write {} for
+\* what lies deeper.  On instances shallower than the unfolding depth the truncated schema behaves as the recursive one.
+RECURSIVE InlineTrunc(_, _, _, _)
+InlineTruncVal(d, env, kw, v, f) ==
+  IF kw \in MapSchemaKws /\ IsObj(v)
+  THEN JObj(v.k, [j \in DOMAIN v.k |-> IF IsSchemaVal(d, v.v[j]) THEN InlineTrunc(d, env, v.v[j], f) ELSE v.v[j]])
+  ELSE IF kw \in SeqSchemaKws /\ IsArr(v)
+  THEN JArr([j \in DOMAIN v.e |-> IF IsObj(v.e[j]) THEN InlineTrunc(d, env, v.e[j], f) ELSE v.e[j]])
+  ELSE IF kw \in OneSchemaKws /\ IsObj(v) THEN InlineTrunc(d, env, v, f)
+  ELSE v
+InlineTrunc(d, env, S, f) ==
+  IF ~IsObj(S) THEN S
+  ELSE LET env2 == WithId(d, env, S) IN
+       IF IsRefObj(S)
+       THEN LET t == Target(env2, Get(S, K_d_ref).s) IN
+            IF f = 0 \/ ~t.dom \/ ~t.ok THEN EmptyObj
+            ELSE InlineTrunc(d, [env2 EXCEPT !.base = t.base], t.node, f - 1)
+       ELSE JObj(S.k, [i \in DOMAIN S.k |-> InlineTruncVal(d, env2, S.k[i], S.v[i], f)])
+
 InlineVal(d, env, kw, v, f) ==
   IF kw \in MapSchemaKws /\ IsObj(v)
   THEN LET rs == [j \in DOMAIN v.k |-> IF IsSchemaVal(d, v.v[j]) THEN Inline(d, env, v.v[j], f) ELSE [ok |-> TRUE, v |-> v.v[j]]] IN
